@@ -79,8 +79,37 @@ theorem rsSchedAll_final :
     s.starts = [.ingest 0 0, pfA, pfB] ∧ s.isFinished = true := by
   decide +kernel
 
-/-! ### minimum zero: the counter counts reservations that do not exist -/
+/-- the state before the last block of `rsSchedAll`: `allocate_tasks` 10 is about to run; the one task
+left in the plan is FINISHED, both machines are idle in the reservation; the block does not raise and
+releases the reservation -/
+def rsSchedPre : List Nat := rsSchedAll.dropLast
 
+theorem rsSchedPre_enabled : pfEnabledAll {} rsSchedPre rsW0.start = true := by decide +kernel
+
+theorem rsSchedPre_reach : Reach rsW0 (pfRun {} rsSchedPre rsW0.start) :=
+  pf_reach_run {} rsSchedPre _ Reach.start rsSchedPre_enabled
+
+/-- the parameters of an `allocate_tasks` process -/
+def rsAllocTasks? : PK → Option (Oid × List (Tid × Mid) × Bool)
+  | .allocTasks o sc _ _ fn => some (o, sc, fn)
+  | _ => none
+
+def rsRaised : Yield → Bool
+  | .raised _ => true
+  | _ => false
+
+theorem rsSchedPre_final :
+    let s := pfRun {} rsSchedPre rsW0.start
+    s.crashed = none ∧ s.cl.idle = [(0, [1, 0])] ∧ s.cl.numProv = 1 ∧ s.cl.runOn = [] ∧
+    (s.plan? 0).map (·.tasks) = some [pfB] ∧ (s.task? pfB).map (·.status) = some .finished ∧
+    (s.proc? 10).bind (fun p => rsAllocTasks? p.k) = some (0, [], false) ∧
+    pfEnabledB s 10 = true ∧ rsRaised (s.resume 10 {}).2 = false ∧
+    (s.resume 10 {}).1.cl.idle = [] ∧ (s.resume 10 {}).1.cl.available = [1, 0] := by
+  decide +kernel
+
+/-! ### minimum zero: no reservation for fewer than one machine -/
+
+/-- one machine, two partitions, minimum zero: `floor(1 / 2) = 0` machines per reservation -/
 def rsW1 : Sys :=
   { machines := [⟨0, 1, 1⟩], totalArrays := 1, maxIngest := 1, alg := .batch 2 0 none,
     cl := Cluster.init [0], buf := Buffer.init 100 10 100 10, obs := [pfObs] }
@@ -93,12 +122,12 @@ theorem rsW1_wf : WFConfig rsW1 := by
   subst ho
   exact ⟨rfl, rfl, by decide, by decide⟩
 
-/-- Creation order inside every instant.  Instant 1: `allocate_tasks` 10 asks for
-`floor(1 / 2) = 0` machines; `0 < min_resources_per_workflow = 0` is false, so
-`provision_batch_resources(0, …)` is called: it adds no idle entry and counts one reservation.
-Instant 2: the same again; the counter has reached the number of partitions.  From then on
-`_provision_resources` returns False at every block: the workflow is never scheduled, although the
-machine is in the available pool. -/
+/-- Creation order inside every instant.  At t = 1 and again at t = 2 `allocate_tasks` 10 asks for
+`floor(1 / 2) = 0` machines.  BEFORE the repair F12 (`provision < 1` refused; /repo commit f83ab6f)
+`0 < min_resources_per_workflow = 0` was false, `provision_batch_resources(0, …)` was called, added no
+idle entry and counted a reservation each time: after this schedule the counter was 2 = partitions with
+no reservation in existence, and nothing could ever be provisioned again (this run is how the defect
+was found).  Now `_provision_resources` returns False and the counter stays 0. -/
 def rsSchedLeak : List Nat :=
   [0, 1, 2, 3, 4, 5, 6, 7, 8, 9, 9,
    0, 1, 2, 3, 4, 5, 6, 8, 10,
@@ -112,8 +141,57 @@ theorem rsSchedLeak_reach : Reach rsW1 (pfRun {} rsSchedLeak rsW1.start) :=
 
 theorem rsSchedLeak_final :
     let s := pfRun {} rsSchedLeak rsW1.start
-    s.crashed = none ∧ s.cl.idle = [] ∧ s.cl.numProv = 2 ∧ s.cl.available = [0] ∧ s.starts = [.ingest 0 0] ∧
-    (s.task? pfA).map (·.status) = some .unscheduled ∧ s.isFinished = false := by
+    s.crashed = none ∧ s.cl.idle = [] ∧ s.cl.numProv = 0 ∧ s.cl.available = [0] ∧ s.starts = [.ingest 0 0] := by
+  decide +kernel
+
+/-- two machines, one partition, minimum zero; the observation ingests on both machines -/
+def rsObs2 : Obs :=
+  { id := 0, est := 0, duration := 1, demand := 1, rate := 0, ingestDemand := 2,
+    wf := ⟨[(0, 2, 0), (1, 1, 0)], [(0, 1, 0)], [0, 1]⟩ }
+
+def rsW2 : Sys :=
+  { machines := [⟨0, 1, 1⟩, ⟨1, 1, 1⟩], totalArrays := 1, maxIngest := 2, alg := .batch 1 0 none,
+    cl := Cluster.init [0, 1], buf := Buffer.init 100 10 100 10, obs := [rsObs2] }
+
+theorem rsW2_wf : WFConfig rsW2 := by
+  refine ⟨by decide, rfl, by decide, ?_, ⟨rfl, rfl, rfl, rfl, rfl, rfl, rfl, rfl, rfl, rfl, rfl, rfl, rfl,
+    rfl, rfl, rfl, rfl⟩⟩
+  intro o ho
+  simp only [rsW2, List.mem_cons, List.not_mem_nil, or_false] at ho
+  subst ho
+  exact ⟨rfl, rfl, by decide, by decide⟩
+
+/-- Instant 0: ingest on both machines (allocation processes 8 and 9, bodies 10 and 11).  Instant 1:
+the scheduler loop 3 plans the workflow (`allocate_tasks` 12), and 12 runs BEFORE 8 and 9 have given
+the machines back: no machine is available, nothing is reserved, the counter stays 0. -/
+def rsSchedNone : List Nat :=
+  [0, 1, 2, 3, 4, 5, 6, 7, 8, 9, 10, 10, 11, 11,
+   0, 1, 2, 3, 4, 5, 6, 12]
+
+theorem rsSchedNone_enabled : pfEnabledAll {} rsSchedNone rsW2.start = true := by decide +kernel
+
+theorem rsSchedNone_reach : Reach rsW2 (pfRun {} rsSchedNone rsW2.start) :=
+  pf_reach_run {} rsSchedNone _ Reach.start rsSchedNone_enabled
+
+theorem rsSchedNone_final :
+    let s := pfRun {} rsSchedNone rsW2.start
+    s.crashed = none ∧ s.cl.idle = [] ∧ s.cl.numProv = 0 ∧ s.cl.available = [] ∧ s.cl.ingest = [0, 1] ∧
+    (s.task? pfA).map (·.status) = some .unscheduled := by
+  decide +kernel
+
+/-- … then 8 and 9 give the machines back; at instant 2 `allocate_tasks` 12 reserves both and the
+workflow starts (`pfA` on machine 0, body 14) -/
+def rsSchedLater : List Nat := rsSchedNone ++ [8, 9, 0, 1, 2, 3, 4, 12, 13, 14]
+
+theorem rsSchedLater_enabled : pfEnabledAll {} rsSchedLater rsW2.start = true := by decide +kernel
+
+theorem rsSchedLater_reach : Reach rsW2 (pfRun {} rsSchedLater rsW2.start) :=
+  pf_reach_run {} rsSchedLater _ Reach.start rsSchedLater_enabled
+
+theorem rsSchedLater_final :
+    let s := pfRun {} rsSchedLater rsW2.start
+    s.crashed = none ∧ s.cl.idle = [(0, [1])] ∧ s.cl.numProv = 1 ∧ s.cl.available = [] ∧
+    s.starts = [.ingest 0 0, .ingest 0 1, pfA] ∧ s.cl.runOn = [⟨pfA, 0, some 0, false⟩] := by
   decide +kernel
 
 end Sys
